@@ -60,5 +60,8 @@ def run(ctx):
     # socket-level tier: live ARP with the unique logger on the wire: a host that answers in every pass is printed once
     n3, rej = wt.run_wire(ctx, select=lambda s: s["name"].startswith("arp-live"), label="c14w", focus="live")
     wt.report(ctx, "C14", rej)
+    # ... and a record far larger than a pipe buffer behind a slow reader of standard output: complete when the process has exited
+    n4, rej = wt.run_wire(ctx, select=lambda s: s["name"] in ("elastic-slow-stdout", "elastic-parallel", "docker-parallel"), label="c14s", focus="all")
+    wt.report(ctx, "C14", rej)
     for r0 in runs[:2]:
         ctx.sample([{k: (v if k != "c" else v[:30]) for k, v in e.items()} for e in r0[:12]])
